@@ -11,6 +11,7 @@ import Mathlib.Tactic.FieldSimp
 import Mathlib.Tactic.Ring
 import Mathlib.Tactic.Abel
 import Mathlib.Tactic.NormNum
+import BronVerif.Lemmas.SignAlgSpec
 /-!
 # C01 — threshold signing by a qualified quorum yields a publicly valid signature (property theorems)
 
@@ -183,6 +184,36 @@ theorem boldyreva_valid (e : G₁ → G₂ → T)
     rw [← h]; simp only [dotProduct, Finset.sum_smul, mul_smul]
   rw [hs, hl, hr]
 end bls
+
+
+/-! ### the executable verifiers of `Model/SignAlg` (what the driver runs) accept honest outputs -/
+
+section model
+open BronVerif.SignAlg BronVerif.Lemmas.SignAlgSpec
+variable {F' G' : Type} [Field F'] [DecidableEq F'] [AddCommGroup G'] [Module F' G'] [DecidableEq G']
+
+/-- `dkls23_model_accepts`: under the hypotheses of `dkls23_valid`, with `rₓ = x(R) ≠ 0` for
+`R = k • g`, the driver's `ecdsaVerify` returns `true` on the aggregated signature `(rₓ, Σw/Σu)`. -/
+theorem dkls23_model_accepts (g : G') (xOf : G' → Option F') (k φ sk m rx u w : F')
+    (hu : u = k * φ) (hw : w = φ * (m + rx * sk)) (hk : k ≠ 0) (hφ : φ ≠ 0) (hm : m + rx * sk ≠ 0)
+    (hx : xOf (k • g) = some rx) (hrx : rx ≠ 0) :
+    ecdsaVerify g (sk • g) xOf m rx (w / u) = true := by
+  rw [ecdsaVerify_iff]
+  refine ⟨hrx, ?_, ?_⟩
+  · subst hu hw
+    exact div_ne_zero (mul_ne_zero hφ hm) (mul_ne_zero hk hφ)
+  · have h := dkls23_valid (G := G') g k φ sk m rx u w hu hw hk hφ hm
+    unfold EcdsaEq at h
+    rw [h, hx]
+
+/-- `lindell22_model_accepts`: the driver's `schnorrVerify` returns `true` on the aggregate of honest
+partial responses, for the (parity-corrected) nonce `R′` and key `P′`. -/
+theorem lindell22_model_accepts {ι : Type} [Fintype ι] (g : G') (k x : ι → F') (e σR σP : F') :
+    schnorrVerify g (σP • (∑ i, x i • g)) (σR • (∑ i, k i • g)) e (∑ i, (σR * k i + e * (σP * x i))) false
+      = true := by
+  rw [schnorrVerify_iff]
+  exact lindell22_valid g k x e σR σP
+end model
 
 /-! ### non-vacuity -/
 
